@@ -34,6 +34,7 @@ class UpdaterModel:
         self.f_missing = prog.find1('process_missing_clock_update', self_ty='ShmUpdater')
         self.extracts = []
         self.dom_vars = []
+        self.asof_vars = []
 
     def h_extract(self, ex, st, callee, args, fn):
         self.n += 1
@@ -109,7 +110,7 @@ def run_history(um, H, drift):
                 s2 = st.fork()
                 if kind == 0:
                     phc = z3.Int('phc_%d' % i); as_s, as_n = z3.Int('asof_s_%d' % i), z3.Int('asof_n_%d' % i)
-                    um.dom_vars.append(phc)
+                    um.dom_vars.append(phc); um.asof_vars += [as_s, as_n]
                     outs = um.step_report(s2, phc, Struct([as_s, as_n]))
                     info = dict(kind=0, phc=phc, as_s=as_s, as_n=as_n)
                 else:
@@ -282,7 +283,7 @@ def run_check(prop, tier, seed):
     ck.cov['histories'] = nhist
     if prop == 'C08':
         # no overflow / panic inside the updater for bounds and PHC terms below 2^61
-        gdom = [z3.And(v >= 0, v < 2 ** 61) for v in um.dom_vars] + drift_dom
+        gdom = [z3.And(v >= 0, v < 2 ** 61) for v in um.dom_vars] + [z3.And(v >= 0, v < 2 ** 40) for v in um.asof_vars] + drift_dom
         k = 0
         for ob in um.ex.obligations:
             k += 1
